@@ -241,6 +241,30 @@ def r3_necessary_variables(repo: Repo, rep):
                               f"necessary_variables = {aliased} (same object) and then mutated in place: {(mutated + aug)[0]}", f"alias of {aliased} mutated")
             else:
                 rep.ok(R, init.site(), init.fq, "necessary_variables is a (fresh or read-only shared) set", t)
+    # order: set_necessary_variables() starts from a fresh set, so sub-domain variables must be united AFTER it
+    ops_ = f"{DOM}.domainoperations"
+    for mod, cname in (("translate", "Translate"), ("rotate", "Rotate")):
+        ci = repo.cls(f"{ops_}.{mod}.{cname}")
+        init = ci.methods.get("__init__")
+        for p in paths(init.node, expand_self=False):
+            if p.ret is RAISE:
+                continue
+            has_sub = False
+            lost = None
+            for e in p.events:
+                v = e.value
+                if e.kind == "attr" and dump(e.target) == "self.necessary_variables" and v is not None and "domain.necessary_variables" in dump(v):
+                    has_sub = True
+                elif e.kind == "call" and isinstance(v, ast.Call) and dump(v.func) in ("self.necessary_variables.update", "self.necessary_variables.union") and "domain.necessary_variables" in dump(v):
+                    has_sub = True
+                elif e.kind == "aug" and "necessary_variables" in dump(e.node) and "domain.necessary_variables" in dump(e.node):
+                    has_sub = True
+                elif e.kind == "call" and isinstance(v, ast.Call) and dump(v.func) == "self.set_necessary_variables":
+                    if has_sub:
+                        lost = dump(e.node)
+                    has_sub = False
+            rep.check(R, has_sub and lost is None, init.site(), init.fq, "the inner domain's variables are united after set_necessary_variables (which re-initialises the set)",
+                      f"re-initialised by `{lost}` after uniting" if lost else "inner variables not united at the end of the constructor", "order of set_necessary_variables / update")
     # union of sub-domain variables in the operation classes
     ops = f"{DOM}.domainoperations"
     for mod, cname, subs in (("union", "UnionDomain", ("domain_a", "domain_b")), ("cut", "CutDomain", ("domain_a", "domain_b")),
@@ -330,6 +354,8 @@ _TR = "src/torchphysics/problem/domains/domainoperations/translate.py"
 _CI = "src/torchphysics/problem/domains/domain2D/circle.py"
 _IV = "src/torchphysics/problem/domains/domain1D/interval.py"
 MUTANTS = [
+    dict(id="C17-M8", file=_RO, old="        self.set_necessary_variables(self.rotation_fn, self.rotate_around)\n        self.necessary_variables.update(self.domain.necessary_variables)",
+         new="        self.necessary_variables = set(self.domain.necessary_variables)\n        self.set_necessary_variables(self.rotation_fn, self.rotate_around)", rule="R-C17-3", what="inner variables united before the set is re-initialised"),
     dict(id="C17-M1", file=_RO, old="            rotate_around=new_rotate_around,\n        )", new="        )", rule="R-C17-1", what="rotate_around not forwarded"),
     dict(id="C17-M2", file=_CI, old="        return Circle(space=self.space, center=new_center, radius=new_radius)", new="        return Circle(space=self.space, center=new_center, radius=self.radius)", rule="R-C17-1", what="raw radius forwarded"),
     dict(id="C17-M3", file=_TR, old="        new_domain = self.domain(**data)\n        new_translate_fn", new="        new_domain = self.domain\n        new_translate_fn", rule="R-C17-1", what="inner domain not evaluated"),
